@@ -965,7 +965,9 @@ impl Database {
                 } else {
                     OwnedValue::Null
                 };
+                let more_rows = executor.next()?.is_some();
                 executor.close()?;
+                ensure!(!more_rows, "scalar subquery returned more than one row");
                 Ok(result)
             } else {
                 Ok(OwnedValue::Null)
